@@ -149,7 +149,11 @@ def main(modname, tier, seed, replay=None, extra_result_hook=None):
     ctx = Ctx(tier, paths, seed)
     if replay:
         obj = json.load(open(replay))
-        oc = replay_case(mod, obj["case"], ctx)
+        case = obj["case"]
+        if isinstance(case, dict) and obj.get("detail"):
+            # where inside the case the failure was seen (e.g. kill point k and mode): lets a module re-run exactly that point
+            case = dict(case, _detail=obj["detail"])
+        oc = replay_case(mod, case, ctx)
         if oc.inconclusive:
             print("replay inconclusive: " + oc.why)
             return 2
